@@ -1554,6 +1554,42 @@ fn unassigned_writer(case: &Value) {
     println!("{}", serde_json::to_string(&json!({"unassigned": doc.get("unassigned")})).unwrap());
 }
 
+/// Relations -> locks (C01 relation pinning): the problem of the case is read by the real reader; every lock is described by the
+/// (vehicle id, shift index) pairs its condition accepts and by its details.
+fn read_locks(case: &Value) {
+    use vrp_core::models::{LockOrder, LockPosition};
+    use vrp_pragmatic::format::problem::PragmaticProblem;
+    use vrp_pragmatic::format::ShiftIndexDimension;
+    let problem = (case["problem"].to_string(), vec![case["matrix"].to_string()]).read_pragmatic().unwrap_or_else(|e| setup_failed("cannot read problem", e));
+    let locks: Vec<Value> = problem
+        .locks
+        .iter()
+        .map(|lock| {
+            let mut accepts: Vec<(String, usize)> = problem
+                .fleet
+                .actors
+                .iter()
+                .filter(|a| (lock.condition_fn)(a))
+                .map(|a| (a.vehicle.dimens.get_vehicle_id().unwrap().clone(), a.vehicle.dimens.get_shift_index().copied().unwrap()))
+                .collect();
+            accepts.sort();
+            accepts.dedup();
+            let details: Vec<Value> = lock
+                .details
+                .iter()
+                .map(|d| {
+                    let order = match d.order { LockOrder::Any => "any", LockOrder::Sequence => "sequence", LockOrder::Strict => "strict" };
+                    let position = match d.position { LockPosition::Any => "any", LockPosition::Departure => "departure", LockPosition::Arrival => "arrival", LockPosition::Fixed => "fixed" };
+                    let jobs: Vec<String> = d.jobs.iter().map(|j| j.dimens().get_job_id().cloned().unwrap_or_default()).collect();
+                    json!({"order": order, "position": position, "jobs": jobs})
+                })
+                .collect();
+            json!({"accepts": accepts, "details": details})
+        })
+        .collect();
+    println!("{}", serde_json::to_string(&json!({"locks": locks})).unwrap());
+}
+
 /// `Statistic + Statistic` through the public operator.
 fn statistic_sum(case: &Value) {
     use vrp_pragmatic::format::solution::{Statistic, Timing};
@@ -1609,6 +1645,9 @@ fn main() {
     }
     if case["kind"] == "group_state" {
         return group_state(&case);
+    }
+    if case["kind"] == "read_locks" {
+        return read_locks(&case);
     }
     if case["kind"] == "insertion_step" {
         return insertion_step(&case);
